@@ -3,5 +3,7 @@ CONSTANTS LeafSet = "small"
           Deep = TRUE
           Wide3 = FALSE
           TableWide = FALSE
+          StrangeWide = FALSE
+          Only = "all"
 INIT Init
 NEXT NextGen
